@@ -72,6 +72,8 @@ def enc_stmt(s, out):
         out += [12]
     elif k == "bi":
         out += [15, s[1]]
+    elif k == "fib":
+        out += [16, s[1], s[2]]
     elif k in ("try", "blk"):
         out += [13 if k == "try" else 14]
         for b in s[1]:
@@ -282,7 +284,11 @@ class Gen:
                 nf = self.nfn[i]
                 cand = [f for f in range(nf) if (not infn) or (i, f) > rank]
                 if cand:
-                    out.append(("call", r.choice(cand)))
+                    if r.random() < 0.35:
+                        # the call goes through 1..3 nested fibers (an exception that leaves a fiber ends the run)
+                        out.append(("fib", r.choice([1, 1, 2, 2, 3]), r.choice(cand)))
+                    else:
+                        out.append(("call", r.choice(cand)))
             elif k < 0.86:
                 out.append(("bi", r.choice([0, 1, 2, 0, 1, 2, 3])))
             elif k < 0.90 and depth < 2:
@@ -346,7 +352,7 @@ def coq_preamble(cm):
     return ("From YVGen Require Import Consts ImportArms.\nOpen Scope string_scope.\n"
             "Definition CM : list (list (list string)) := %s.\n"
             "Definition RC (w : string) := run_case CM gen_builtin_names gen_core_class_names FRAMES_MAX "
-            "gen_registry_hit_checks_loading gen_builtins_init_guarded w.\n" % tab)
+            "gen_registry_hit_checks_loading gen_builtins_init_guarded gen_loading_walks_chain w.\n" % tab)
 
 
 def eval_models(progs, cm, tag):
@@ -489,24 +495,27 @@ class Checker:
             else:
                 opts = "gc=always" if gc_always_every and i % gc_always_every == 0 else "-"
                 lines.append(mods_line(m["main"], m["mods"], opts))
-        recs = yvlib.run_harness(self.binary, lines, case_timeout_ms=15000)
+        recs = yvlib.run_harness(self.binary, lines, case_timeout_ms=6000)
         # a crash / timeout may be an artefact of the shared machine (harness binary rebuilt by a concurrent check,
         # CPU starvation): such cases are re-run once, alone, before they count
         bad = [i for i, r in enumerate(recs) if r.crashed]
         if bad:
-            again = yvlib.run_harness(self.binary, [lines[i] for i in bad], case_timeout_ms=60000, shards=min(4, len(bad)))
+            again = yvlib.run_harness(self.binary, [lines[i] for i in bad], case_timeout_ms=15000, shards=min(8, len(bad)))
             for i, r in zip(bad, again):
                 recs[i] = r
             self.retried += len(bad)
         return models, recs
 
     def compare_one(self, prog, m, rec):
-        """-> (ok_m, ok_s, mech flags, spec flags)"""
+        """-> (ok_m, ok_s, mech flags, spec flags); ok_m is None when the Mechanism model gave no result (out of fuel:
+        e.g. a model variant that re-runs a module body for ever)"""
         io, il, ir = impl_obs(rec)
-        mo, ml, mr, flags = split_model(m["mech"], True)
         so, sl, sr, sflags = split_model(m["spec"], True)
-        ok_m = (io, il, ir) == (mo, ml, mr)
         ok_s = lines_match(so, io) and sl == il and lines_match(sr, ir[:len(sr)]) and (len(ir) == 1) == (len(sr) == 1)
+        if m["mech"].startswith(("ILL", "FUEL")):
+            return None, ok_s, "", sflags
+        mo, ml, mr, flags = split_model(m["mech"], True)
+        ok_m = (io, il, ir) == (mo, ml, mr)
         return ok_m, ok_s, flags, sflags
 
     def check(self, progs, tag, family):
@@ -518,14 +527,18 @@ class Checker:
         for p, m, rec in zip(progs, models, recs):
             self.evals += 1
             w = wire(p)
-            if m is None or m["mech"].startswith(("ILL", "FUEL")) or m["spec"].startswith(("ILL", "FUEL")):
+            if m is None or m["spec"].startswith(("ILL", "FUEL")):
                 ctx.broken.append("model evaluation failed / ill-formed generated program: %s -> %s" % (w, m and (m["mech"][:80], m["spec"][:80])))
                 continue
             ok_m, ok_s, flags, sflags = self.compare_one(p, m, rec)
+            if ok_m is None:
+                if len(ctx.broken) < 8:
+                    ctx.broken.append("the Mechanism model gives no result (%s) where the Spec does: %s" % (m["mech"][:40], w))
+                ok_m = True
             if "b" in flags:
                 self.flag_b += 1
             okpaths = [PATHS[i] for i, mm in enumerate(p) if i > 0 and mm[0] == "ok"]
-            if any(ml_.count(q) > 1 for ml_ in [m["mech"].split("#")[1].split(",")] for q in okpaths):
+            if any(ml_.count(q) > 1 for ml_ in [(m["spec"].split("#") + ["", ""])[1].split(",")] for q in okpaths):
                 self.reloaded += 1
             cyc, dia, clash = graph_features(p)
             if (cyc or dia) and clash:
@@ -680,7 +693,7 @@ def shrink(ch, prog, budget=30):
     def fails(p):
         models, recs = ch.observe([p], "shrink")
         m = models[0]
-        if m is None or m["mech"].startswith(("ILL", "FUEL")) or m["spec"].startswith(("ILL", "FUEL")):
+        if m is None or m["spec"].startswith(("ILL", "FUEL")):
             return False
         ok_m, ok_s, flags, sflags = ch.compare_one(p, m, recs[0])
         return not ok_s
@@ -701,6 +714,31 @@ def shrink(ch, prog, budget=30):
                     changed = True
                 k -= 1
     return [tuple(x) for x in cur]
+
+
+def fiber_programs():
+    """fixed regression family: an import reached through d = 0..3 nested fibers started by a module body that is still
+    loading - a cycle (caught inside the innermost fiber / uncaught: fatal even under an outer try) and legitimate imports"""
+    progs = []
+    for d in range(4):
+        # cycle, caught inside the fiber: ImportError, body not re-run, one loader call
+        progs.append([("ok", [("imp", 1, 0), ("pa", 101, 0), ("imp", 1, 4), ("pa", 4, 0)]),
+                      ("ok", [("def", 0, 11), ("fn", 0, [("try", [("imp", 1, 2), ("pa", 2, 0)]), ("tag", 5)]),
+                              ("tag", 10), ("fib", d, 0), ("fib", d, 0), ("tag", 11)])])
+        # cycle, not caught inside the fiber: fatal (d >= 1: the outer try cannot catch it)
+        progs.append([("ok", [("try", [("imp", 1, 0)]), ("tag", 1)]),
+                      ("ok", [("fn", 0, [("imp", 1, 2)]), ("tag", 10), ("try", [("fib", d, 0)]), ("tag", 11)])])
+        # legitimate imports from inside the fibers: same object, body once
+        progs.append([("ok", [("imp", 1, 0), ("imp", 2, 0), ("pa", 102, 0)]),
+                      ("ok", [("fn", 0, [("imp", 2, 0), ("pa", 102, 0), ("imp", 2, 3), ("sa", 3, 0, 77), ("pa", 102, 0)]),
+                              ("tag", 10), ("fib", d, 0), ("fib", d, 0), ("tag", 11)]),
+                      ("ok", [("def", 0, 21), ("tag", 20)])])
+        # a function of a finished module, called through fibers from main, importing a third module that imports back
+        progs.append([("ok", [("imp", 1, 0), ("fn", 0, [("calla", 101, 0)]), ("fib", d, 0), ("fib", d, 0)]),
+                      ("ok", [("def", 0, 11), ("fn", 0, [("try", [("imp", 3, 0), ("pa", 103, 0)]), ("pv", 0)]), ("tag", 10)]),
+                      ("missing",),
+                      ("ok", [("def", 0, 31), ("tag", 30), ("imp", 1, 0), ("pa", 101, 0), ("fn", 0, [("imp", 3, 5)]), ("try", [("fib", d, 0)])])])
+    return progs
 
 
 def all_edge_sets(nmods=4):
@@ -737,6 +775,8 @@ def run(ctx):
         shapes.append(shape_program(es, rng.random() < 0.6, kinds))
     ch.check(shapes, "shapes", "graph shapes")
     nshapes = len(shapes)
+    fibs = fiber_programs()
+    ch.check(fibs, "fibers", "imports through nested fibers (fixed regression family)")
     # 3. random programs
     g = Gen(rng)
     rnd = [g.program() for _ in range(360 if quick else 4000)]
@@ -767,12 +807,14 @@ def run(ctx):
         "rule": "module programs of the mini-language ModLang (<= 5 modules): (i) the canonical program of EVERY import graph over main + 3 modules "
                 "(4096 edge sets incl. self-loops, x {bare imports, imports in try}; sampled in quick) and of sampled graphs with missing / "
                 "uncompilable members; (ii) random programs (imports at top level / in functions called 0-2 times / in try / in blocks / under "
-                "aliases, same global x0 in several modules read through exported functions, attribute writes from outside, built-ins, throws); "
+                "aliases, same global x0 in several modules read through exported functions, attribute writes from outside, built-ins, throws, "
+                "calls through 1-3 nested fibers); (ii') a fixed family with an import at fiber depth 0-3 below a loading module body (cycle caught / "
+                "fatal, legitimate imports); "
                 "(iii) tests/scripts/modules; non-trivial = the static import graph has a cycle or a diamond AND one global name is defined with "
                 "different values in two modules (distinct wire strings counted)",
         "samples": ch.samples,
         "traces_validated_against_impl": ch.evals,
-        "programs": ch.evals, "graph_shape_programs": nshapes, "random_programs": len(rnd), "corpus_scripts": ncorpus,
+        "programs": ch.evals, "graph_shape_programs": nshapes, "fiber_regression_programs": len(fibs), "random_programs": len(rnd), "corpus_scripts": ncorpus,
         "impl_vs_model_mismatches": ch.mism_m, "impl_vs_spec_mismatches": ch.mism_s,
         "main_only_name_cases": ch.flag_b, "reloaded_after_failed_import_cases": ch.reloaded, "harness_cases_retried_after_crash": ch.retried,
         "graph_shapes_exhaustive": (not quick),
